@@ -485,7 +485,11 @@ def catalogue():
     add("mel.set_amp", ["mel"], lambda a, r: a[0].set_amp(r.choice([30, 100])))
     add("mel[i]", ["mel"], lambda a, r: a[0][0])
     add("mel[i:j]", ["mel"], lambda a, r: a[0][0:2])
-    add("mel.get_between", ["mel"], lambda a, r: a[0].get_between(Fr(0), a[0].duration / 2))
+    def window(x, r):
+        d = Fr(x.duration)
+        a_, b_ = sorted(r.sample([Fr(0), Fr(1, 8), Fr(1, 4), Fr(1, 3), Fr(1, 2), Fr(2, 3), Fr(7, 8), Fr(1)], 2))
+        return d * a_, d * b_
+    add("mel.get_between", ["mel"], lambda a, r: a[0].get_between(*window(a[0], r)))
     add("mel.replace", ["mel", "note", "note"], lambda a, r: a[0].replace(a[1], a[2]))
     add("mel.project_on_rhythm", ["mel", "mel"], lambda a, r: a[0].project_on_rhythm(a[1]))
     add("mel.dur-attr", ["mel"], lambda a, r: getattr(a[0], r.choice(["h", "e"])))
@@ -511,7 +515,7 @@ def catalogue():
     add("chord.set_duration", ["chord"], lambda a, r: a[0].set_duration(Fr(2)))
     add("chord.augment", ["chord"], lambda a, r: a[0].augment(Fr(2)))
     add("chord.invert", ["chord"], lambda a, r: a[0].invert(r.choice([1, -1])))
-    add("chord.get_chord_between", ["chord"], lambda a, r: a[0].get_chord_between(Fr(0), a[0].duration / 2))
+    add("chord.get_chord_between", ["chord"], lambda a, r: a[0].get_chord_between(*window(a[0], r)))
     add("chord.parsimonious", ["chord", "chord"], lambda a, r: a[0].get_parsimonious_voice_leading(a[1], direction=r.choice([None, "up", "down"])))
     add("chord.o_melody", ["chord"], lambda a, r: a[0].o_melody(1))
     add("chord.project_on_score", ["chord", "score"], lambda a, r: a[0].project_on_score(a[1]))
@@ -526,7 +530,7 @@ def catalogue():
     add("score[i:j]", ["score"], lambda a, r: a[0][0:1])
     add("score.chords", ["score"], lambda a, r: list(a[0].chords))
     add("score.o", ["score"], lambda a, r: a[0].o(r.choice([1, -1])))
-    add("score.get_score_between", ["score"], lambda a, r: a[0].get_score_between(Fr(0), a[0].duration / 2))
+    add("score.get_score_between", ["score"], lambda a, r: a[0].get_score_between(*window(a[0], r)))
     add("score.set_duration", ["score"], lambda a, r: a[0].set_duration(Fr(4)))
     add("score.set_amp", ["score"], lambda a, r: a[0].set_amp(50))
     add("score.project_on_score", ["score", "score"], lambda a, r: a[0].project_on_score(a[1]))
